@@ -1,10 +1,13 @@
 import Femio.Driver.Proto
 import Femio.Model.FistrMsh
+import Femio.Model.FistrCanon
 /-! driver commands for C01 (FrontISTR `.msh`)
 
 ```
 c01.write <mshin>            -> ok 1 <list line> | ok 0          (0: the model says the writer raises)
 c01.read <bang> <merge> <list line> -> ok 1 <mshread> | ok 0   (0: raises / outside the model; flags = ReadCfg)
+c01.canon <mshin>            -> ok <wf> <mshread>   (wf = decide (Femio.C01.WF m), mshread = Femio.C01.canon m: hypothesis
+                                and right-hand side of theorem C01_roundtrip)
 mshin  := list(node) list(block) bool list(group) opt(sec) opt(list(id sci))
 node   := id list(sci)           sci := bool nat int             block := ty list(id list(nat))
 group  := str list(nat)          sec := bool str str sci sci
@@ -51,6 +54,9 @@ def handle : List String → Option String
     match writeMsh m with
     | some ls => some ("ok 1 " ++ showLines ls)
     | none => some "ok 0"
+  | "c01.canon" :: rest => do
+    let m ← run mshInP rest
+    some ("ok " ++ showBool (decide (WF m)) ++ " " ++ showRead (canon m))
   | "c01.read" :: rest => do
     let (bang, merge, ls) ← run (do let b ← bool; let m ← bool; let l ← listOf str; pure (b, m, l)) rest
     match readMshCfg ⟨bang, merge⟩ ls with
